@@ -22,6 +22,14 @@ CLAIMS = {
             "Decides the structural clauses of the unknown-operator rule: rejection order (reserved first), 4-byte multiplier cap, selector bits, base compared with the budget before multiplying, overflow-checked multiplication in BOTH cost models, 32-bit cap dominating the only Ok(nil), sibling cost constants, and that op_unknown is reachable only through the lenient unknown-operator paths with unchanged arguments. Known finding: classic model uses wrapping_mul.",
             "Trusts rustc's MIR; the numeric value of the add/mul/concat-like formulas is not decided (only which constants they read).",
             "DESIGN.md 4/C09"),
+    "C11": ("effect confinement of NEW_COST_MODEL-controlled regions (T6) + forward taint of the values they define to cost sinks; audited split-accumulator regions frozen by their set of value operations",
+            "Decides for EVERY test of NEW_COST_MODEL (73 today, incl. tests of the captured flag inside closures) that code run under only one model calls only cost helpers and defines only values that reach the cost (accumulator, check_cost, CostExceeded comparisons, cost slot), never the result node, the allocator or bignum values. Seven audited regions (split accumulators of add/sub/logops) are pinned by the exact set of value operations each arm performs.",
+            "Trusts rustc's MIR, the cost-helper whitelist and the value-type blacklist; equality of acc0+acc1+small and the single accumulator is arithmetic and not decided; control dependence on a cost-derived comparison is not tracked.",
+            "DESIGN.md 4/C11"),
+    "C31": ("dominance/reachability rule on the guard-exit cost test, path-sensitive effect counting of exit_guard (T3), pairing of guard record and ExitGuard pushes, constant/table extraction (nesting limit, cost-exempt predicate, extension table)",
+            "Decides on ALL paths of exit_guard that success needs cost-exempt or current_cost == expected_cost, that exactly one full restore of the entry checkpoint, one pop and one push(nil) happen and 0 is charged; that guard entry records a full checkpoint and current+declared cost and schedules exactly one ExitGuard; nesting limit 20; extension table. With C12/R12b (a full restore resets every count) this gives 'counts as at entry'.",
+            "Trusts rustc's MIR; equality of the guarded program's cost with the declared cost for a given program is a runtime fact.",
+            "DESIGN.md 4/C31"),
     "C12": ("path-sensitive effect counting over MIR (forward dataflow, T3) + field-matched checkpoint tables",
             "Decides a structural necessary condition on ALL paths of ALL allocation entry points: per successful path exactly one atom / one heap contribution / one pair, none on failing paths; restore field coverage; reporters. Not the arithmetic of sizes.",
             "Trusts rustc's MIR and the effect recogniser (Vec method names, ghost counter field names resolved by type); bulk append loop tied to the checked size by C13. Known finding: new_substr small-integer slice counted on the heap.",
